@@ -1,4 +1,159 @@
-import Ahbicht.Model.Resolve
+import Ahbicht.Lemmas.Subst
+import Ahbicht.Lemmas.Lex
+/-!
+# C10 — resolving packages and time conditions is exact bracketed substitution
+
+Token level: replacing every package token `[nP…]` by `(` tokens of its expression `)` and every time condition by
+its format-constraint tokens, and then parsing, gives **exactly** the tree that expansion of the parsed tree gives
+(`C10_subst_packages`, `C10_subst_time`, `C10_subst`).  One level only (`C10_one_level`); an unknown package aborts
+(`C10_unknown`).  The textual form of one replacement is `C10_textual`.
+-/
 namespace Ahbicht.Properties.C10
-theorem placeholder : True := trivial
+open Ahbicht
+
+/-- tokens a package is replaced by: `(` body `)` if the resolver knows a well-formed body, else the package itself -/
+def pkgToks (P : List Char → Option (List Char)) : Atom → List Tok
+  | .pkg k r =>
+    match (P k).bind lex with
+    | some bt => if (parseToks bt).isSome then .lp :: bt ++ [.rp] else [.atom (.pkg k r)]
+    | none => [.atom (.pkg k r)]
+  | a => [.atom a]
+
+theorem realises_atom (a : Atom) (f : Frame) (st : List Frame) : runToks (f :: st) [.atom a] = some (f.push (.leaf a) :: st) := by
+  simp [runToks, stepTok]
+
+theorem pkg_realises (P : List Char → Option (List Char)) : Realises (pkgToks P) (pkgSubst P) := by
+  intro a f st
+  cases a with
+  | cond k => exact realises_atom _ f st
+  | time k => exact realises_atom _ f st
+  | pkg k r =>
+    cases hP : P k with
+    | none =>
+      have : pkgToks P (.pkg k r) = [.atom (.pkg k r)] := by simp [pkgToks, hP]
+      rw [this]
+      have : pkgSubst P (.pkg k r) = .leaf (.pkg k r) := by simp [pkgSubst, hP]
+      rw [this]; exact realises_atom _ f st
+    | some body =>
+      cases hl : lex body with
+      | none =>
+        have : pkgToks P (.pkg k r) = [.atom (.pkg k r)] := by simp [pkgToks, hP, hl]
+        rw [this]
+        have : pkgSubst P (.pkg k r) = .leaf (.pkg k r) := by simp [pkgSubst, hP, parseCond, hl]
+        rw [this]; exact realises_atom _ f st
+      | some bt =>
+        cases hp : parseToks bt with
+        | none =>
+          have : pkgToks P (.pkg k r) = [.atom (.pkg k r)] := by simp [pkgToks, hP, hl, hp]
+          rw [this]
+          have : pkgSubst P (.pkg k r) = .leaf (.pkg k r) := by simp [pkgSubst, hP, parseCond, hl, hp]
+          rw [this]; exact realises_atom _ f st
+        | some be =>
+          have : pkgToks P (.pkg k r) = .lp :: bt ++ [.rp] := by simp [pkgToks, hP, hl, hp]
+          rw [this]
+          have : pkgSubst P (.pkg k r) = be := by simp [pkgSubst, hP, parseCond, hl, hp]
+          rw [this]; exact run_bracketed hp f st
+
+/-- **C10 (packages).** -/
+theorem C10_subst_packages (P : List Char → Option (List Char)) {ts : List Tok} {e : Expr} (h : parseToks ts = some e) :
+    parseToks (substToks (pkgToks P) ts) = some (e.bind (pkgSubst P)) :=
+  parse_subst (pkg_realises P) h
+
+/-- tokens of `[932][492]X[934][493]` -/
+def ub3Toks : List Tok :=
+  [.atom (.cond ['9','3','2']), .atom (.cond ['4','9','2']), .op .xor_, .atom (.cond ['9','3','4']), .atom (.cond ['4','9','3'])]
+
+theorem ub3_lex : lex "[932][492]X[934][493]".toList = some ub3Toks := by decide
+theorem ub3_parse : parseToks ub3Toks = some ub3Tree := by decide
+
+def timeToks : Atom → List Tok
+  | .time ['U','B','1'] => [.atom (.cond ['9','3','2'])]
+  | .time ['U','B','2'] => [.atom (.cond ['9','3','4'])]
+  | .time ['U','B','3'] => .lp :: ub3Toks ++ [.rp]
+  | a => [.atom a]
+
+theorem time_realises : Realises timeToks timeSubst := by
+  intro a f st
+  unfold timeToks timeSubst
+  split
+  · exact realises_atom _ f st
+  · exact realises_atom _ f st
+  · exact run_bracketed ub3_parse f st
+  · split <;> first | exact realises_atom _ f st | simp_all
+
+/-- **C10 (time conditions).** `[UB1]` ↦ `[932]`, `[UB2]` ↦ `[934]`, `[UB3]` ↦ `([932][492]X[934][493])` -/
+theorem C10_subst_time {ts : List Tok} {e : Expr} (h : parseToks ts = some e) :
+    parseToks (substToks timeToks ts) = some (expandTime e) :=
+  parse_subst time_realises h
+
+/-- **C10.** Both steps, in the order of the resolver: packages first, so that time conditions inside package
+expressions are replaced as well. -/
+theorem C10_subst (P : List Char → Option (List Char)) {ts : List Tok} {e e' : Expr} (h : parseToks ts = some e)
+    (hx : expandPkg P e = .ok e') :
+    parseToks (substToks timeToks (substToks (pkgToks P) ts)) = some (expandTime e') := by
+  have he' : e' = e.bind (pkgSubst P) := by
+    unfold expandPkg at hx
+    split at hx
+    · cases hx
+    · cases hx; rfl
+  rw [he']
+  exact C10_subst_time (C10_subst_packages P h)
+
+theorem atoms_bind (σ : Atom → Expr) (e : Expr) : (e.bind σ).atoms = e.atoms.flatMap (fun a => (σ a).atoms) := by
+  induction e with
+  | leaf a => simp [Expr.bind, Expr.atoms]
+  | bin o l r ihl ihr => simp [Expr.bind, Expr.atoms, ihl, ihr]
+
+/-- **C10 (one level).** After expansion the atoms are exactly the atoms of the package expressions, untouched:
+packages inside a package expression are still packages. -/
+theorem C10_one_level (P : List Char → Option (List Char)) (e : Expr) :
+    (e.bind (pkgSubst P)).atoms = e.atoms.flatMap (fun a => (pkgSubst P a).atoms) := atoms_bind _ _
+
+/-- **C10 (unknown package).** With well-formed repeatabilities, a package the resolver does not know aborts the expansion. -/
+theorem C10_unknown (P : List Char → Option (List Char)) (e : Expr)
+    (hrep : ∀ k r, Atom.pkg k (some r) ∈ e.atoms → repOk r = true)
+    (hun : ∃ k r, Atom.pkg k r ∈ e.atoms ∧ P k = none) : expandPkg P e = .error .notImplemented := by
+  obtain ⟨k, r, hmem, hk⟩ := hun
+  unfold expandPkg pkgFailure
+  have h1 : (pkgPairs e).any badRep = false := by
+    rw [List.any_eq_false]
+    intro kr hkr
+    simp only [pkgPairs, List.mem_filterMap] at hkr
+    obtain ⟨a, ha, hka⟩ := hkr
+    cases a with
+    | cond _ => simp [Atom.pkgPair] at hka
+    | time _ => simp [Atom.pkgPair] at hka
+    | pkg k' r' =>
+      simp [Atom.pkgPair] at hka; subst hka
+      cases r' with
+      | none => simp [badRep]
+      | some rr => simp [badRep, hrep k' rr ha]
+  have h2 : (pkgPairs e).any (fun kr => (P kr.1).isNone) = true := by
+    rw [List.any_eq_true]
+    exact ⟨(k, r), by simp only [pkgPairs, List.mem_filterMap]; exact ⟨_, hmem, rfl⟩, by simp [hk]⟩
+  simp [h1, h2]
+
+theorem lex_seq {s s1 s2 : LState} {a b : List Char} {t1 t2 : List Tok}
+    (h1 : lexFrom s a = some (s1, t1)) (h2 : lexFrom s1 b = some (s2, t2)) :
+    lexFrom s (a ++ b) = some (s2, t1 ++ t2) := by
+  rw [lexFrom_append, h1]; simp [h2]
+
+/-- **C10 (textual form of one replacement).** If `pre` and `post` are texts that the scanner leaves between tokens, then replacing
+the text of one atom by `(` + body + `)` replaces its token by `(` tokens of the body `)`. -/
+theorem C10_textual {pre atomText body post : List Char} {ts₁ ts₂ bt : List Tok} {a : Atom}
+    (h1 : lexFrom .out pre = some (.out, ts₁)) (h2 : lexFrom .out atomText = some (.out, [.atom a]))
+    (h3 : lexFrom .out post = some (.out, ts₂)) (hb : lexFrom .out body = some (.out, bt)) :
+    lex (pre ++ (atomText ++ post)) = some (ts₁ ++ ([.atom a] ++ ts₂)) ∧
+    lex (pre ++ (['('] ++ (body ++ ([')'] ++ post)))) = some (ts₁ ++ ([.lp] ++ (bt ++ ([.rp] ++ ts₂)))) := by
+  have hlp : lexFrom .out ['('] = some (.out, [.lp]) := by decide
+  have hrp : lexFrom .out [')'] = some (.out, [.rp]) := by decide
+  constructor
+  · unfold lex; rw [lex_seq h1 (lex_seq h2 h3)]
+  · unfold lex; rw [lex_seq h1 (lex_seq hlp (lex_seq hb (lex_seq hrp h3)))]
+
+/-! non-vacuity: `[1] U [7P]` with `7P ↦ [2] O [3]` -/
+example :
+    let P : List Char → Option (List Char) := fun k => if k = "7P".toList then some "[2] O [3]".toList else none
+    (parseCond "[1] U [7P]".toList).map (Expr.bind (pkgSubst P)) = parseCond "[1] U ([2] O [3])".toList := by decide
+
 end Ahbicht.Properties.C10
